@@ -106,7 +106,8 @@ def main() -> int:
         out = dict(id=sid, property=meta["property"], tier=args.tier, seed=int(args.seed), results=results, caught_by=caught)
         with open(os.path.join(d, args.result_name), "w") as f:
             json.dump(out, f, indent=1, sort_keys=True)
-        summary.append((sid, f"caught by {caught}" if caught else "MISSED"))
+        errs = [p for p, r_ in results.items() if r_["exit"] not in (0, 1)]
+        summary.append((sid, f"caught by {caught}" if caught else (f"HARNESS-ERROR in {errs}" if errs else "MISSED")))
     print()
     for sid, s in summary:
         print(f"{sid:28s} {s}")
